@@ -8,9 +8,17 @@ HARNESS = "h_c16"
 
 TRUSTED = [
     "Lean 4 kernel; axioms of every theorem audited (propext, Classical.choice, Quot.sound at most)",
-    "hand-written models lean/CppUModel/Model/JUnit.lean (collector, writer) and Model/OutputEvents.lean (registry loop, scripted "
-    "tests), tied to src/CppUTest/JUnitTestOutput.cpp and TestRegistry.cpp by the h_c16 correspondence (every file name and every "
-    "file's bytes compared with the model, this run)",
+    "translator translate/extract_junit.py: the statement lists of writeXmlHeader, writeTestSuiteSummary, writeProperties, writeTestCases "
+    "(open tag / skipped marker / close tag), writeFailure, writeFileEnding (every literal of every format string, every conversion paired "
+    "with its argument, which fields go through encodeXmlText), the order of the writer calls of writeTestGroupToFile, the fields cleared by "
+    "resetTestGroupResult and the statement order of printCurrentGroupEnded are regenerated into Gen/JUnitTemplates.lean on every run; "
+    "Model/JUnit.lean INTERPRETS these lists and the proofs are re-checked over them, and the interpreter's output is compared byte for byte "
+    "with the real files (so a translator bug shows up as a disagreement, not as a false theorem)",
+    "hand-written parts of lean/CppUModel/Model/JUnit.lean (the interpreter, the loop of writeTestCases, test started / ended / failure "
+    "callbacks - their source shape is pinned by exact shape checks in extract_junit) and Model/OutputEvents.lean (registry loop, scripted "
+    "tests), tied to src/CppUTest/JUnitTestOutput.cpp and TestRegistry.cpp by the h_c16 correspondence (every file name and every file's "
+    "bytes compared with the model, this run), both directly on a JUnitTestOutput and through CommandLineTestRunner::runAllTestsMain "
+    "(-ojunit -k -r -v/-vv -n/-sn/-xn/-xsn, CompositeTestOutput in front of the JUnit output)",
     "extractor translate/extract_escapes.py (replace list of encodeXmlText, forbidden set of encodeFileName, literal pieces of "
     "createFileName) regenerating Gen/EscapeTables.lean; its output is also exercised by the correspondence",
     "extractor translate/extract_failure_ctors.py (member-initialiser lists of the three TestFailure constructors, copy constructor, "
@@ -19,7 +27,7 @@ TRUSTED = [
     "SimpleString::replace(const char*, const char*) / replace(char, char) equal Text.replaceAll / Text.replaceByte (property C13)",
     "the XML rules as written down in Spec/JUnit.lean (references, what may appear raw in attribute values and text); "
     "Python's xml.parsers.expat as the standards-conforming judge of the files the real code wrote",
-    "StringFromFormat's %s/%d formatting (vsnprintf) as modelled by fmtInt/pad3",
+    "StringFromFormat's %s/%d/%0Nd formatting (vsnprintf) as modelled by fmtInt/fmtPad; (int) casts as two's-complement truncation",
     "the contract of the file seams PlatformSpecificFOpen/FPuts/FClose: the file holds exactly the bytes handed to FPuts, in order. "
     "The model stops at the seam; the contract is TESTED, not proved: a quarter of the generated runs (and corpus cases) leave the "
     "function pointers at the platform's real implementations, write real files into a fresh temporary directory and read them "
@@ -30,24 +38,101 @@ ASSUMPTIONS = [
     "bytes >= 0x80: those are outside the property's quantifier and would need a declared encoding)",
     "tabs in attribute values come back as spaces from a conforming parser (attribute-value normalisation); they are compared "
     "modulo that in the expat judge and are not generated for the Lean oracle",
-    "line numbers and counts below 2^31 (they are printed through (int) casts)",
-    "the platform's time string is XML-safe (it is written unencoded); the millisecond clock is stubbed",
+    "line numbers and counts below 2^31 (they are printed through (int) casts); times may exceed it: the wrap of the printed seconds is "
+    "modelled (castInt) and exercised",
+    "the platform's time string is XML-safe (it is the one field written unencoded - theorem every_text_field_is_encoded names it). It is "
+    "an environment input of the model (varied by the generator: empty, 99/100/101 bytes, several formats); the Gcc implementation "
+    "(time/localtime/strftime) is exercised unstubbed on runs that write one file; the millisecond clock is stubbed",
     "default order: the tests of a group are consecutive; a group whose tests are all filtered out produces cpputest_.xml with an empty "
     "suite (observation, outside the quantifier); captured output accumulates over the groups of a run (stdOutput_ is never reset)",
 ]
 RULE = ("scripted registries: 1-5 groups, pass / fail through every TestFailure constructor (file+line+message, message only, file+line only, FailFailure; several per test; from the body and from a plugin's post-test action) / ignored tests, printed "
-        "text, optional package and name filter, repeated runs on one output object (-r2/-r3); names, paths, messages and printed text over printable ASCII with & < > \" ' CR LF "
-        "frequent and some longer than 100 bytes; non-trivial = a file contains an encoded character, a failure or a skipped element; "
+        "text, optional package and name filter, repeated runs on one output object (-r2/-r3/-r9), a quarter of the runs through the real CommandLineTestRunner (half of those behind a CompositeTestOutput), the platform time string varied or real; names, paths, messages and printed text over printable ASCII with & < > \" ' CR LF "
+        "frequent and some longer than 100 bytes; a boundary stream (formatted lines of exactly 99/100/101 bytes, a fully filtered group between two that run, a group name that comes back, state carried across repetitions, second boundaries and (int) wrap of times, every special character in every field at once); non-trivial = a file contains an encoded character, a failure or a skipped element; "
         "distinct = distinct op sequences")
 
 signature = G.signature
 
 
+TIME_STRINGS = ["", "T", "2024-02-29T23:59:59", "1970-01-01T00:00:00", "Thu Jan  1 00:00:00 1970", "12/31/99 23:59", "x" * 99, "y" * 100,
+                "z" * 101, "2001-02-03T04:05:06+01:00 (local time; 'quoted')", "%s%d%n"]
+BIG_TICKS = [2147483647, 2147483647999, 2147483648000, 4294967295999, 4294967296000, 4294967297001]
+
+
+def boundary_case(rng):
+    """hand-shaped streams: exact buffer lengths of StringFromFormat (100 bytes), a group all of whose tests are filtered out
+    between two that run, the same group name coming back, state surviving across repetitions, wrap-around times"""
+    k = rng.randrange(6)
+    ops = []
+    if k == 0:
+        # the formatted <testcase ...> / <failure ...> / <testsuite ...> line crosses the 100-byte format buffer exactly
+        n = rng.choice(range(0, 60))
+        name = "n" * n
+        ops += ["test %s %s %s 7 run" % (G.hx("g" * rng.choice([1, 5, 20])), G.hx(name) , G.hx("f.cpp")),
+                "fail %s 7 %s" % (G.hx("f.cpp"), G.hx("m" * rng.choice(range(40, 70))))]
+    elif k == 1:
+        # middle group completely filtered out (its report is cpputest_[package_].xml), filter by exact name
+        ops += ["filter %s 1 0" % G.hx("keep"),
+                "test %s %s %s 1 run" % (G.hx("A&1"), G.hx("keep"), G.hx("a.cpp")),
+                "test %s %s %s 2 run" % (G.hx("B<2>"), G.hx("drop"), G.hx("b.cpp")),
+                "print %s 3 %s" % (G.hx("b.cpp"), G.hx("never printed")),
+                "test %s %s %s 4 %s" % (G.hx("C\"3"), G.hx("keep"), G.hx("c.cpp"), rng.choice(["run", "ign"])),
+                "print %s 5 %s" % (G.hx("c.cpp"), G.hx("<printed> & kept"))]
+    elif k == 2:
+        # a group name that comes back later (a second report with the same name), with an ignored-only group between
+        g = G.text(rng, 6, G.SPECIAL_XML, allow_empty=False)
+        ops += ["test %s %s %s 1 run" % (G.hx(g), G.hx("t1"), G.hx("f")), "checks 3", "failmsg %s" % G.hx("first & only"),
+                "test %s %s %s 2 ign" % (G.hx("only-ignored"), G.hx("t2"), G.hx("f")),
+                "test %s %s %s 3 run" % (G.hx(g), G.hx("t3"), G.hx("f")), "checks 2", "print %s 9 %s" % (G.hx("f"), G.hx("again\r\n"))]
+    elif k == 3:
+        # repetitions: captured output and the check-count offset survive, everything else restarts
+        ops += ["repeat %d" % rng.choice([2, 3, 9]),
+                "test %s %s %s 1 run" % (G.hx("G"), G.hx("a"), G.hx("f.cpp")), "checks %d" % rng.choice([1, 5]),
+                "print %s 2 %s" % (G.hx("f.cpp"), G.hx("out<%d>" % rng.randrange(10))),
+                "test %s %s %s 3 run" % (G.hx("H"), G.hx("b"), G.hx("f.cpp")), "checks %d" % rng.choice([0, 2]),
+                "failx %s 4 %s" % (G.hx("f.cpp"), G.hx("stop \"here\"")), "checks 100"]
+    elif k == 4:
+        # times: exact second boundaries and the (int) wrap of the seconds
+        ops += ["test %s %s %s 1 run" % (G.hx("T"), G.hx("a"), G.hx("f")), "tick %d" % rng.choice([999, 1000, 1001, 59999, 60000] + BIG_TICKS),
+                "test %s %s %s 2 run" % (G.hx("T"), G.hx("b"), G.hx("f")), "tick %d" % rng.choice([0, 1, 10, 100] + BIG_TICKS),
+                "test %s %s %s 3 ign" % (G.hx("T"), G.hx("c"), G.hx("f")), "tick 5"]
+    else:
+        # package + every special character in every field at once
+        sp = "&<>\"'\r\n"
+        ops += ["package %s" % G.hx("p" + sp), "test %s %s %s 1 run" % (G.hx("g" + sp), G.hx("n" + sp), G.hx("f" + sp)),
+                "print %s 2 %s" % (G.hx("o" + sp), G.hx(sp + sp)), "fail %s 3 %s" % (G.hx("x" + sp), G.hx(sp)),
+                "test %s %s %s 4 ign" % (G.hx("g" + sp), G.hx(sp), G.hx(sp))]
+    if rng.random() < 0.5:
+        ops.insert(0, "timestr %s" % G.hx(rng.choice(TIME_STRINGS)))
+    if rng.random() < 0.4:
+        ops.insert(0, "cli")
+        if rng.random() < 0.5:
+            ops.insert(0, "verbose %d" % rng.choice([1, 2]))
+    ops.append("run")
+    return ops
+
+
 def gen_case(rng, n, malformed=False, extra_chars="", real_io=False):
     ops = G.gen_registry(rng, n, empty_groups=malformed or rng.random() < 0.05, repeat_groups=malformed and rng.random() < 0.5,
                          with_package=True, with_prints=True, specials=G.SPECIAL_XML + "|[]" if not extra_chars else G.SPECIAL_XML + extra_chars)
+    if rng.random() < 0.06:
+        # wrap-around of the (int) seconds
+        ticks = [i for i, l in enumerate(ops) if l.startswith("tick ")]
+        if ticks:
+            ops[rng.choice(ticks)] = "tick %d" % rng.choice(BIG_TICKS)
     if not real_io and rng.random() < 0.2:
         ops.insert(0, "repeat %d" % rng.choice([2, 2, 3]))      # -r<n>: every repetition writes every report again
+    x = rng.random()
+    if x < 0.25:
+        ops.insert(0, "timestr %s" % G.hx(rng.choice(TIME_STRINGS)))     # the platform's time string: an environment input
+    elif x < 0.45 and not real_io and not malformed:
+        # the real GetPlatformSpecificTimeString (time/localtime/strftime) - only for runs that write ONE file, so that the clock
+        # cannot move between two reports of the same run
+        reg = G.read_registry(ops)
+        if reg["repeat"] == 1 and len(G.group_runs(reg["tests"])) == 1:
+            ops.insert(0, "realtime")
+    if not real_io and rng.random() < 0.25:
+        ops.insert(rng.randint(0, len(ops)), "cli")             # through CommandLineTestRunner (-ojunit -k -r -v -n/-sn/-xn/-xsn)
     ops.append("run")
     if real_io:
         # real files in a temporary directory: the names must be distinct and short enough for the file system
@@ -60,7 +145,8 @@ def gen_case(rng, n, malformed=False, extra_chars="", real_io=False):
         ops.append("run")
     if malformed:
         for _ in range(rng.randint(0, 3)):
-            ops.insert(rng.randint(0, len(ops)), rng.choice(["tick", "fail zz 1 00", "test 41 42", "checks x", "package", "bogus 1 2"]))
+            ops.insert(rng.randint(0, len(ops)), rng.choice(["tick", "fail zz 1 00", "test 41 42", "checks x", "package", "bogus 1 2",
+                                                            "timestr zz", "cli 1"]))
     return ops
 
 
@@ -72,12 +158,14 @@ def generate(rng, tier):
         out.append(("gen", gen_case(rng, size, real_io=rng.random() < 0.25)))
     for i in range(n // 8):
         out.append(("malformed", gen_case(rng, rng.choice([1, 3, 6]), malformed=True)))
+    for i in range(min(n // 6, 800)):
+        out.append(("boundary", boundary_case(rng)))
     return out
 
 
 def translate(ctx):
-    from translate import extract_escapes, extract_failure_ctors
-    return (extract_escapes.run() or []) + (extract_failure_ctors.run() or [])
+    from translate import extract_escapes, extract_failure_ctors, extract_junit
+    return (extract_escapes.run() or []) + (extract_failure_ctors.run() or []) + (extract_junit.run() or [])
 
 
 def _files(lines):
@@ -104,6 +192,20 @@ def observe(r, rep):
             rep.count("filename.with_replaced_or_underscore")
         if name == b"cpputest_.xml":
             rep.count("observation.file_for_empty_or_fully_filtered_group")
+    first = [l.split() for l in r.ops[:r.ops.index("run")]] if "run" in r.ops else []
+    if ["cli"] in first:
+        rep.count("branch.cli_runner")
+        if any(w[0] == "verbose" and w[1:] in (["1"], ["2"]) for w in first if w):
+            rep.count("branch.cli_composite_output")
+    if any(w and w[0] == "timestr" for w in first):
+        rep.count("branch.time_string_varied")
+    if ["realtime"] in first:
+        rep.count("branch.platform_time_string")
+    for name, b in fs:
+        if b' time="-' in b:
+            rep.count("branch.seconds_wrap_negative")
+        if b'assertions="-' in b:
+            rep.count("branch.assertions_negative_after_repetition")
     reg = G.read_registry(r.ops)
     if reg["repeat"] > 1:
         rep.count("branch.repeated_runs")
@@ -276,24 +378,36 @@ def extra(ctx, exe):
                       "# detail: %s\ncase replay\n%s\nend\n" % (why, "\n".join(ops)), name="expat")
 
 
-LEVEL_TEXT = ("Machine-checked Lean 4 theorems over an executable model of JUnitTestOutput (collector and writer) and of the registry's "
+LEVEL_TEXT = ("Machine-checked Lean 4 theorems over an executable model of JUnitTestOutput whose writer is an INTERPRETER of statement lists "
+              "regenerated from src/CppUTest/JUnitTestOutput.cpp on every run (all writer functions, the order of the writer calls, the reset "
+              "and group-end statement lists, the encodeXmlText / file-name tables, the TestFailure constructors) and of the registry's "
               "callback order, for every registry (any number of groups and tests, any pass/fail/ignore pattern, any name filter, any "
-              "package) and all byte strings: the six sequential replaces of encodeXmlText equal one pass of a per-byte map (side "
-              "condition checked on the table regenerated from the source), decoding the references returns the original, the encoded "
-              "text contains no raw < > \" CR LF and every & starts an emitted reference, an XML reader of an attribute value or of element "
-              "text gets the original back and stops exactly at the delimiter; every file is the fixed template with every variable "
-              "field encoded; the suite states the true numbers of tests and failed tests, there is one testcase element per test in run "
-              "order with name, file and line, a skipped marker exactly for ignored tests and a failure element (first failure) exactly "
-              "for failed tests; the file name is the sanitised cpputest_[package_]group.xml. The real code's files are compared byte "
-              "for byte with the model on generated registries, read by an independent Lean report reader and parsed by Python's expat. Proved for the "
-              "whole document as well: the specification's tokenizer and layout reader accept the rendering of every well-formed structured "
-              "report (all byte strings as values) and return exactly that report, hence every file of every run is read back into the "
-              "fields it was written from. Stated as theorems, not violations: two groups share a file name exactly when their sanitised "
-              "names agree; the captured output accumulates over the groups of a run; a group none of whose tests runs is reported as "
-              "cpputest_[package_].xml with an empty suite.")
-LEVEL_NOTE = ("Trusted: Lean kernel; the hand-written collector/writer/runner model (validated against the code by the correspondence of "
-              "this run); the extractor of the tables; SimpleString::replace = Text.replaceAll (C13); expat. Well-formedness of the whole "
-              "file for all inputs is proved against the specification's own reader (a small XML subset: declaration, tags with quoted "
-              "attributes, references, text) and judged by expat on the generated runs; the full XML grammar is not formalised. Outside the quantifier: control bytes other than CR/LF, bytes >= 0x80.")
-TECHNIQUE = ("Lean 4 proofs (replace-chain = per-byte map over a regenerated table, reference round trip, collector/runner induction) "
-             "+ differential correspondence harness on the written files + expat as independent judge")
+              "package) and all byte strings: for every collector state the regenerated statement lists write exactly the rendering of the "
+              "structured report with every text field through encodeXmlText (only the platform's time string is raw); the six sequential "
+              "replaces of encodeXmlText equal one pass of a per-byte map (side condition checked on the regenerated table), decoding the "
+              "references returns the original, the encoded text contains no raw < > \" CR LF and every & starts an emitted reference, an XML "
+              "reader of an attribute value or of element text gets the original back and stops exactly at the delimiter; the suite states "
+              "the true numbers of tests and failed tests, there is one testcase element per test in run order with name, file and line, a "
+              "skipped marker exactly for ignored tests and a failure element (first failure) exactly for failed tests; every testcase's "
+              "time is the test's time and every suite's time is the sum over its group (seconds through the (int) cast, three-digit "
+              "milliseconds); the file name is the sanitised cpputest_[package_]group.xml. Whole-document and whole-run: the specification's "
+              "tokenizer and layout reader accept the rendering of every well-formed structured report (all byte strings as values) and "
+              "return exactly that report, hence every file of every run - and of every repetition of a repeated run on one output "
+              "object - is read back into the fields it was written from. The real code's files are compared byte for byte with the model "
+              "on generated registries (directly, through the real command-line runner with a composite output, and through real files), "
+              "read by the independent Lean report reader and parsed by Python's expat. Stated as theorems, not violations: two groups share "
+              "a file name exactly when their sanitised names agree; the captured output accumulates over the groups of a run; a group none "
+              "of whose tests runs is reported as cpputest_[package_].xml with an empty suite; reset clears exactly counts, group name and nodes.")
+LEVEL_NOTE = ("Regenerated and proof-checked each run: every writer function as a statement list, writer call order, reset / group-end lists, escape "
+              "and file-name tables, failure constructors. Pinned by exact shape checks only (hand model + correspondence): the loop skeleton of "
+              "writeTestCases, printCurrentTestStarted/Ended, printFailure, print, the empty callbacks, the file seams, constructors/destructor. "
+              "Only observed: the Gcc time string and file functions, CompositeTestOutput/CommandLineTestRunner (same files required), memory "
+              "management of the node list (sanitizers). Trusted: Lean kernel; the interpreter and runner model (validated by this run's "
+              "correspondence); the translators; SimpleString::replace = Text.replaceAll (C13); expat. Well-formedness of the whole file for "
+              "all inputs is proved against the specification's own reader (a small XML subset: declaration, tags with quoted attributes, "
+              "references, text) and judged by expat on the generated runs; the full XML grammar is not formalised. Outside the quantifier: "
+              "control bytes other than CR/LF, bytes >= 0x80, lines and counts >= 2^31, a time string that needs encoding.")
+TECHNIQUE = ("Lean 4 proofs over source-regenerated writer templates (interpreter + render theorem), replace-chain = per-byte map over a "
+             "regenerated table, reference round trip, whole-report reader round trip, collector/runner induction (keys, times, groups, "
+             "repetitions) + differential correspondence harness on the written files (direct, command-line runner, real files) + expat as "
+             "independent judge")
